@@ -7,7 +7,7 @@ Multi-simplices are not allowed.
 
 """
 
-from collections.abc import Hashable, Iterable
+from collections.abc import Hashable, Iterable, Iterator
 from copy import copy, deepcopy
 from itertools import combinations, count
 from warnings import warn
@@ -481,6 +481,8 @@ class SimplicialComplex(Hypergraph):
                 try:
                     # repeated nodes neither count towards the size nor
                     # create degenerate subfaces
+                    if isinstance(members, Iterator):
+                        members = list(members)  # a one-shot iterator is read once
                     unique = list(dict.fromkeys(members))
                 except TypeError as e:
                     raise XGIError("Invalid ebunch format") from e
@@ -534,6 +536,8 @@ class SimplicialComplex(Hypergraph):
             first_edge = next(new_edges)
         except StopIteration:
             return
+        if isinstance(first_edge, Iterator):
+            first_edge = list(first_edge)  # looking into it must not use it up
         try:
             first_elem = list(first_edge)[0]
         except (TypeError, IndexError):
@@ -575,6 +579,8 @@ class SimplicialComplex(Hypergraph):
             try:
                 # repeated nodes neither count towards the size nor
                 # create degenerate subfaces
+                if isinstance(members, Iterator):
+                    members = list(members)  # a one-shot iterator is read once
                 unique = list(dict.fromkeys(members))
             except TypeError as e:
                 raise XGIError("Invalid ebunch format") from e
